@@ -51,6 +51,8 @@ func runC19(t *testing.T, tape *sim.Tape, tier string) *Outcome {
 	}
 	cl.YieldOn["conn.register"] = tape.Draw(2, "y1") == 1
 	cl.YieldOn["conn.deregister"] = tape.Draw(2, "y2") == 1
+	cl.YieldOn["connmgr.snapshot"] = tape.Draw(2, "y3") == 1
+	cl.YieldOn["connmgr.stopped"] = tape.Draw(2, "y4") == 1
 	cl.Sticky = tape.Draw(4, "sticky")
 	if err := cl.startServer(); err != nil {
 		o.violate("harness:start", "Start failed: %v", err)
